@@ -95,11 +95,6 @@ package analyzer
 //@   requires br != nil && tx != nil
 //@   ensures [total] true
 
-//@ func collectDeclaredAccountsFromResolved
-//@   props C18
-//@   requires resolved != nil
-//@   ensures [total] true
-
 //@ func checkUndeclaredCommodities
 //@   props C18
 //@   requires tx != nil && declared != nil
